@@ -23,13 +23,28 @@ theorem source_structure :
     simMatrixStructure = true ∧ simAccumulates = true ∧ sim2dProjectsEveryMolecule = true
     ∧ simClipUsesSlicePad = true := by decide
 
+/-- Normal form of the regenerated `simPrep`. The theorems below are stated through `simPrep_nf`, so that a
+re-ordering of terms in the source (`np.array(shape) / 2 - 0.5`, `shape + starts`, …) only has to get past
+this one lemma. -/
+def simPrepNF (p σ : ℚ) (n : Int) : Int × Int × ℚ × ℚ :=
+  (Py.trunc (p / σ) - Py.trunc (((n : ℚ) - 1) / 2),
+   Py.trunc (p / σ) - Py.trunc (((n : ℚ) - 1) / 2) + n,
+   ((n : ℚ) - 1) / 2,
+   ((Py.trunc (((n : ℚ) - 1) / 2) : Int) : ℚ) + (p / σ - ((Py.trunc (p / σ) : Int) : ℚ)))
+
+theorem simPrep_nf (p σ : ℚ) (n : Int) : simPrep p σ n = simPrepNF p σ n := by
+  unfold simPrep simPrepNF
+  first
+    | rfl
+    | (refine Prod.ext ?_ (Prod.ext ?_ (Prod.ext ?_ ?_)) <;> simp only [] <;> ring_nf)
+
 /-- **The template centre lands on the molecule position** `pos/scale`, for every template size (odd
 or even), every position (also negative) and every scale: `starts + output_center = pos/scale`; the
 fragment has the template's length. -/
 theorem centre_at_position (p σ : ℚ) (n : Int) :
     let r := simPrep p σ n
     (r.1 : ℚ) + r.2.2.2 = p / σ ∧ r.2.1 - r.1 = n ∧ r.2.2.1 = ((n : ℚ) - 1) / 2 := by
-  simp only [simPrep]
+  rw [simPrep_nf]; simp only [simPrepNF]
   refine ⟨?_, by omega, trivial⟩
   push_cast; ring
 
@@ -41,7 +56,7 @@ theorem exact_paste (p σ : ℚ) (n k : Int) (hn : 1 ≤ n) (hp : 0 ≤ p / σ)
     (hgrid : p / σ - ((n : ℚ) - 1) / 2 = (k : ℚ)) :
     let r := simPrep p σ n
     r.2.2.2 = r.2.2.1 ∧ r.1 = k := by
-  simp only [simPrep]
+  rw [simPrep_nf]; simp only [simPrepNF]
   generalize hq : p / σ = q at *
   have hc : (0 : ℚ) ≤ ((n : ℚ) - 1) / 2 := by
     have : (1 : ℚ) ≤ (n : ℚ) := by exact_mod_cast hn
@@ -96,7 +111,7 @@ is clipped at the top: every fragment ends at `stops_z ≤ ceil(zsize)`; every m
 theorem projection_height (z zmax σ : ℚ) (n sumshape : Int) (hσ : 0 < σ) (hz : z ≤ zmax)
     (hn : 1 ≤ n) (hs : n ≤ sumshape) (hz0 : 0 ≤ z / σ) :
     (simPrep z σ n).2.1 ≤ Py.ceil (sim2dZSize zmax σ sumshape) := by
-  simp only [simPrep, sim2dZSize]
+  rw [simPrep_nf]; simp only [simPrepNF, sim2dZSize]
   have t1 := Py.trunc_le_of_nonneg (z / σ) hz0
   have hc : (0 : ℚ) ≤ ((n : ℚ) - 1) / 2 := by
     have : (1 : ℚ) ≤ (n : ℚ) := by exact_mod_cast hn
@@ -207,7 +222,7 @@ molecules left of the origin (truncation toward zero of a negative position) -/
 theorem grid_shift (p σ : ℚ) (n k : Int) (hn : 1 ≤ n) (hgrid : p / σ - ((n : ℚ) - 1) / 2 = (k : ℚ)) :
     let r := simPrep p σ n
     r.2.2.1 - r.2.2.2 = ((r.1 - k : Int) : ℚ) ∧ (r.1 - k = 0 ∨ (r.1 - k = 1 ∧ k < 0)) := by
-  simp only [simPrep]
+  rw [simPrep_nf]; simp only [simPrepNF]
   generalize hq : p / σ = q at *
   have hc : (0 : ℚ) ≤ ((n : ℚ) - 1) / 2 := by
     have : (1 : ℚ) ≤ (n : ℚ) := by exact_mod_cast hn
